@@ -1,6 +1,7 @@
 (* Common definitions shared by all models: outcomes, boolean comparisons on Q,
    report helpers used by the generated cases_*.v files.  No axioms. *)
-From Coq Require Export ZArith QArith Qminmax Qround Qabs List Bool Lia Lqa String Ascii.
+From Coq Require Export String Ascii.
+From Coq Require Export ZArith QArith Qminmax Qround Qabs List Bool Lia Lqa.
 Export ListNotations.
 
 (* ---------- Python exceptions as explicit outcomes ---------- *)
@@ -75,7 +76,9 @@ Fixpoint report_from (i : Z) (codes : list Z) : list (Z * Z) :=
   | [] => []
   | c :: t => if (c =? 0)%Z then report_from (i + 1) t else (i, c) :: report_from (i + 1) t
   end.
-Definition report (codes : list Z) : list (Z * Z) := firstn 40 (report_from 0 codes).
+(* (number of cases evaluated, number of non-zero codes, first 40 of them) *)
+Definition report (codes : list Z) : Z * Z * list (Z * Z) :=
+  let r := report_from 0 codes in (Z.of_nat (List.length codes), Z.of_nat (List.length r), firstn 40 r).
 Definition code_of (mismatch specfail : bool) : Z :=
   ((if mismatch then 1 else 0) + (if specfail then 2 else 0))%Z.
 
